@@ -76,6 +76,18 @@ CLAIMED.update({
                 technique='Coq proof (sorted-list lemmas by induction) + regenerated model equality lemmas + per-call correspondence', design='DESIGN.md §5 C20'),
 })
 
+CLAIMED.update({
+    'C15': dict(text='Sizing model (Model/Sizing.v): lot rounding (whole lots, not above the request, less than a lot short; STAR market rule), the value budget loop on '
+                     'explicit fuel (result fits the budget incl. the estimated fee and no larger lot multiple does), sells bounded by the closable holding, zero is '
+                     'a no-op, futures order / order_to legs in order with quantities adding up; the 10-digit Decimal context is modelled (dec10); every recorded '
+                     'order API call of real runs is replayed through the model inside coqc.',
+                technique='Coq proof (induction over the budget loop, truncation arithmetic) + per-call correspondence', design='DESIGN.md §5 C15'),
+    'C16': dict(text='Validator chain model (Model/Validators.v): submitted iff every enabled validator passes, first veto wins, the individual rules (listing, suspension, '
+                     'limit band, cash, closable); forbidden phases by the regenerated API phase table; the verdict on every order that reached the chain in real '
+                     'runs is replayed through the model inside coqc; rejected calls are checked to leave the full private state unchanged.',
+                technique='Coq proof (case analysis of the chain) + regenerated finite tables + per-order correspondence', design='DESIGN.md §5 C16'),
+})
+
 ALL = ['C%02d' % i for i in range(1, 21)]
 
 
